@@ -469,4 +469,154 @@ theorem lexGo_pieces (o : DocOpts) (ps : List Piece) (hok : piecesOk o.be ps = t
       rw [lexGo_class o s hw _ st hbr hcls, ih hrest _ rfl rfl]
       simp [trAtom]
 
+theorem spec_ranges_ascii (s : ClsSpec) (hw : s.wf = true) :
+    s.ranges.all (fun r => decide (r.1 < 128) && decide (r.2 < 128)) = true := by
+  obtain ⟨neg, first, items, trail⟩ := s
+  simp only [ClsSpec.wf, Bool.and_eq_true, Bool.or_eq_true, beq_iff_eq] at hw
+  obtain ⟨⟨⟨⟨⟨_, hfirst⟩, hitems⟩, _⟩, _⟩, _⟩ := hw
+  simp only [ClsSpec.ranges, List.all_append, Bool.and_eq_true]
+  refine ⟨⟨?_, ?_⟩, by cases trail <;> simp⟩
+  · rcases hfirst with (rfl | rfl) | rfl <;> simp
+  · simp only [List.all_map, List.all_eq_true, Function.comp]
+    intro it hit
+    have := List.all_eq_true.mp hitems it hit
+    cases it with
+    | one c =>
+      simp only [CItem.ok, clsChar, Bool.and_eq_true, decide_eq_true_eq] at this
+      simp [CItem.rng, this.1.1.1]
+    | range lo hi =>
+      simp only [CItem.ok, clsChar, Bool.and_eq_true, decide_eq_true_eq] at this
+      simp [CItem.rng, this.1.1.1.1.1, this.1.2.1.1.1]
+
+/-- every token of such a glob is a wildcard token or an ASCII class -/
+theorem piecesToks_kind (be : Bool) (ps : List Piece) (hok : piecesOk be ps = true) :
+    ∀ t ∈ piecesToks be ps, simpleTok t = true ∨ asciiCls t = true := by
+  induction ps with
+  | nil => simp [piecesToks]
+  | cons p rest ih =>
+    have hrest := piecesOk_tail be p rest hok
+    rw [piecesToks_cons]
+    intro t ht
+    rcases List.mem_append.mp ht with ht | ht
+    · cases p with
+      | run g => exact Or.inl (simpleToks_simple be g (piecesOk_run be g rest hok) t ht)
+      | cls s =>
+        have hw : s.wf = true := by simp only [piecesOk, Bool.and_eq_true] at hok; exact hok.1
+        simp only [Piece.toks, List.mem_singleton] at ht
+        subst ht
+        exact Or.inr (by simpa [asciiCls] using spec_ranges_ascii s hw)
+    · exact ih hrest t ht
+
+/-- **C12_doc with classes** -/
+theorem doc_pieces (o : Opts) (ps : List Piece) (hok : piecesOk o.be ps = true) (p : Bytes) :
+    ∃ toks, parse o (piecesText ps) = .ok toks ∧ okGlob (docOpts o) (piecesText ps) = true ∧
+      tokMatch o toks p = docMatch (docOpts o) (piecesText ps) p := by
+  have hkind := piecesToks_kind o.be ps hok
+  have hstar : ∀ t ∈ piecesToks o.be ps, starTok t = true := by
+    intro t ht
+    rcases hkind t ht with h | h <;> simp [starTok, h]
+  have hflat : (piecesToks o.be ps).flatMap trAtoms = (piecesToks o.be ps).map trAtom := by
+    generalize piecesToks o.be ps = ts at hkind
+    induction ts with
+    | nil => rfl
+    | cons t ts ih =>
+      rw [List.flatMap_cons, List.map_cons, ih (fun x hx => hkind x (by simp [hx]))]
+      rcases hkind t (by simp) with h | h <;> cases t <;> simp_all [trAtoms, simpleTok, asciiCls]
+  have hnd : ∀ t ∈ piecesToks o.be ps, trAtom t ≠ Atom.dirs := by
+    intro t ht
+    rcases hkind t ht with h | h <;> cases t <;> simp_all [trAtom, simpleTok, asciiCls]
+  have hlex : docLex (docOpts o) (piecesText ps) = some [(piecesToks o.be ps).map trAtom] := by
+    unfold docLex
+    rw [lexGo_pieces (docOpts o) ps hok _ rfl rfl]
+    simp only [List.nil_append]
+    have hod : onlyDirs (((piecesToks o.be ps).map trAtom).map Item.a) = false := by
+      unfold onlyDirs
+      cases hts : piecesToks o.be ps with
+      | nil => simp
+      | cons t ts =>
+        have := hnd t (by rw [hts]; simp)
+        simp only [List.map_cons, List.isEmpty_cons, Bool.not_false, List.all_cons, Bool.true_and,
+          Bool.and_eq_false_iff]
+        left
+        simp only [beq_eq_false_iff_ne, ne_eq, Item.a.injEq]
+        exact this
+    have hbe : (docOpts o).be = o.be := rfl
+    simp only [hbe] at hod ⊢
+    rw [hod]
+    exact expand_atoms' _ _
+  have hparse : parse o (piecesText ps) = .ok ((piecesToks o.be ps).map Token.s) := by
+    unfold parse
+    rw [parseLoop_pieces o ps hok _ _ rfl (by omega)]
+    simp [PState.depth]
+  have hne : (piecesToks o.be ps).map Token.s ≠ [.s .recPrefix] := by
+    intro h
+    cases hts : piecesToks o.be ps with
+    | nil => simp [hts] at h
+    | cons t ts =>
+      rw [hts] at h
+      simp only [List.map_cons, List.cons.injEq, Token.s.injEq] at h
+      rcases hkind t (by rw [hts]; simp) with h' | h' <;> rw [h.1] at h' <;> simp [simpleTok, asciiCls] at h'
+  refine ⟨_, hparse, by simp [okGlob, hlex], ?_⟩
+  unfold docMatch
+  rw [hlex]
+  simp only [List.any_cons, List.any_nil, Bool.or_false]
+  rw [tokMatch_eq _ _ _ hne, tokensK_eq_atomsMatch_star o _ hstar p, hflat]
+
+/-! ### a decidable guard (best-effort decomposition, re-rendered and compared) -/
+
+def scanItems : Nat → List Nat → List CItem → Option (List CItem × Bool × List Nat)
+  | 0, _, _ => none
+  | _ + 1, [], _ => none
+  | _ + 1, 93 :: rest, acc => some (acc, false, rest)
+  | _ + 1, 45 :: 93 :: rest, acc => some (acc, true, rest)
+  | f + 1, lo :: 45 :: hi :: rest, acc =>
+    if hi == 93 then scanItems f (45 :: hi :: rest) (acc ++ [.one lo])
+    else scanItems f rest (acc ++ [.range lo hi])
+  | f + 1, c :: rest, acc => scanItems f rest (acc ++ [.one c])
+
+def scanClass (g : List Nat) : Option (ClsSpec × List Nat) :=
+  let ng : Option Nat × List Nat := match g with
+    | 33 :: r => (some 33, r)
+    | 94 :: r => (some 94, r)
+    | r => (none, r)
+  let fg : Option Nat × List Nat := match ng.2 with
+    | 93 :: r => (some 93, r)
+    | 45 :: r => (some 45, r)
+    | r => (none, r)
+  (scanItems (fg.2.length + 1) fg.2 []).map fun r => (⟨ng.1, fg.1, r.1, r.2.1⟩, r.2.2)
+
+def flushRun (cur : List Nat) : List Piece := if cur.isEmpty then [] else [.run cur]
+
+def scanPieces (be : Bool) : Nat → List Nat → List Nat → List Piece
+  | 0, g, cur => flushRun (cur ++ g)
+  | _ + 1, [], cur => flushRun cur
+  | f + 1, 91 :: rest, cur =>
+    match scanClass rest with
+    | some (s, rest') => flushRun cur ++ [.cls s] ++ scanPieces be f rest' []
+    | none => flushRun (cur ++ 91 :: rest)
+  | f + 1, 92 :: e :: rest, cur =>
+    if be then scanPieces be f rest (cur ++ [92, e]) else scanPieces be f (e :: rest) (cur ++ [92])
+  | f + 1, c :: rest, cur => scanPieces be f rest (cur ++ [c])
+
+/-- globs made of wildcard runs and bracket classes -/
+def okClassGlob (be : Bool) (g : List Nat) : Bool :=
+  let ps := scanPieces be (g.length + 1) g []
+  piecesText ps == g && piecesOk be ps
+
+theorem doc_okClassGlob (o : Opts) (g : List Nat) (hg : okClassGlob o.be g = true) (p : Bytes) :
+    ∃ toks, parse o g = .ok toks ∧ okGlob (docOpts o) g = true ∧
+      tokMatch o toks p = docMatch (docOpts o) g p := by
+  unfold okClassGlob at hg
+  simp only [Bool.and_eq_true, beq_iff_eq] at hg
+  rw [← hg.1]
+  exact doc_pieces o _ hg.2 p
+
+-- `a[!b-d]*.[ch]`, `[]a]`, `[a-]x`, `[^-z]?`
+example : okClassGlob true [97, 91, 33, 98, 45, 100, 93, 42, 46, 91, 99, 104, 93] = true ∧
+    okClassGlob true [91, 93, 97, 93] = true ∧ okClassGlob true [91, 97, 45, 93, 120] = true ∧
+    okClassGlob true [91, 94, 45, 122, 93, 63] = true ∧
+    -- outside: `[a-c-e]`, `[\]]`, `[c-a]`
+    okClassGlob true [91, 97, 45, 99, 45, 101, 93] = false ∧ okClassGlob true [91, 92, 93, 93] = false ∧
+    okClassGlob true [91, 99, 45, 97, 93] = false := by decide
+
 end RgVerif.Glob
